@@ -6,7 +6,7 @@
 # The demo command runs from the worktree root, e.g.: cargo test -p pico --offline --test seeded_a
 set -u
 ID="$1"; V="$2"; DEST="$3"; shift 3
-W=/tmp/sw2-$ID; S="$W/SEEDED/$V"
+W=/tmp/${WAVE:-sw2}-$ID; S="$W/SEEDED/$V"
 cd "$W" || exit 2
 export CARGO_NET_OFFLINE=true
 git checkout -q -- . 2>/dev/null
